@@ -250,6 +250,21 @@ def dynprog_runs():
     if _exc(dynprog, l, 8) is not None: return False
     return dynprog(l, 8) == [('c', 8)] and dynprog(l, 4) is None and dynprog(l, 0) == []
 
+
+def padding_bitlen_zero():
+    from crysp.padding import bitpadding
+    p = bitpadding(64)
+    return b''.join(p.iterblocks(b'a' * 20, bitlen=0)) == b'\x80' + bytes(7)
+
+def padding_padonly_counter():
+    # a final piece without message bits: its (padding-only) block must report a zero bit counter;
+    # BLAKE fed piecewise with an empty final piece must equal the one-shot digest
+    from crysp.blake import Blake
+    m = bytes(range(64))
+    h = Blake(256); h.initstate(0)
+    h.update(m)
+    return h.update(b'', padding=True) == Blake(256)(m)
+
 ALL = [v for k, v in list(globals().items()) if callable(v) and not k.startswith('_') and getattr(v, '__module__', None) == '__main__']
 
 if __name__ == '__main__':
